@@ -41,12 +41,13 @@ def plan(tier, seed):
     q = tier == "quick"
     specs = [{"name": f"wf-{i}", "kind": "wellformed", "n": 250 if q else 12000} for i in range(8)]
     specs += [{"name": f"hostile-{i}", "kind": "hostile", "n": 1500 if q else 15000} for i in range(16 if not q else 8)]
+    specs.append({"name": "scaling", "kind": "scaling", "repeats": 5 if q else 15})
     return specs
 
 
 def finalize(agg, tier):
     r = []
-    for c in ("ports_compared", "towers_compared", "status_errors_checked", "no_tcp_floor_checked", "hostile_metered", "hostile_via_api", "memory_samples"):
+    for c in ("ports_compared", "towers_compared", "status_errors_checked", "no_tcp_floor_checked", "hostile_metered", "hostile_via_api", "memory_samples", "scaling_probes"):
         if agg.counter(c) == 0:
             r.append(f"monitor never reached: {c}")
     if len(agg.sets.get("tower_len_mod8", ())) < 8:
@@ -67,7 +68,35 @@ def gen_floor(rng, allow_tcp=True):
     return (rng.choice([0x0F, 0x1F, 0x7F, 0x08, 0x10, 0xFE]), rng.randbytes(rng.choice([0, 1, 3])), rng.randbytes(rng.randrange(0, 16)))
 
 
+def gen_wide_towers(rng):
+    """Well-formed but unusual: many floors, large payloads, TCP floors with odd rhs sizes are left out (a TCP floor's rhs is
+    2 bytes by definition), empty towers before the one with the TCP floor, UDP floors before TCP, ports 1 / 65535."""
+    n = rng.choice([1, 2, 7, 12, 40])
+    towers = []
+    tcp_at = rng.randrange(n) if rng.random() < 0.8 else None
+    for i in range(n):
+        k = rng.choice([0, 1, 7, 20, 120]) if i != tcp_at else rng.choice([0, 3, 30])
+        floors = []
+        for _ in range(k):
+            f = gen_floor(rng, allow_tcp=False)
+            if rng.random() < 0.15:
+                f = (f[0] if f[0] not in (repm.PROTO_TCP,) else 0x7F, f[1], rng.randbytes(rng.choice([16, 255, 2000])))
+            if rng.random() < 0.1:
+                f = (0x08, b"", rng.randbytes(2))  # a UDP floor (known protocol id, no class of its own)
+            floors.append(f)
+        if i == tcp_at:
+            floors.insert(rng.randrange(len(floors) + 1), repm.floor_tcp(rng.choice([1, 65535, rng.randrange(1, 65536)])))
+            if rng.random() < 0.3:
+                floors.append(repm.floor_tcp(rng.randrange(1, 65536)))  # a second TCP floor in the same tower: the first one counts
+        towers.append(floors)
+    return towers
+
+
 def gen_towers(rng):
+    if rng.random() < 0.12:
+        t_ = gen_wide_towers(rng)
+        if len(repm.enc_response(t_, 0)) < 60000:
+            return t_
     n = rng.choice([0, 1, 1, 2, 3, 4, 6])
     tcp_mode = rng.choice(["first", "kth", "absent", "two", "std"])
     towers = []
@@ -169,7 +198,7 @@ def run_wellformed(spec, rec: Recorder):
             max_count = max(max_count, n)
             referents = [rng.choice([3 + k, rng.randrange(1, 2**64)]) for k in range(n)]
             eh = rng.choice([None, (rng.randrange(1, 2**32), uuid.UUID(int=rng.getrandbits(128)))])
-            stub = repm.enc_response(towers, status, eh, max_count=max_count, referents=referents, num_towers=n)
+            stub = repm.enc_response(towers, status, eh, max_count=max_count, referents=referents, num_towers=rng.choice([n, n, n, max_count]))
             for tw in towers:
                 rec.seen("tower_len_mod8", len(repm.enc_tower(tw)) % 8)
             wit = {"towers": [[[p, l, r] for p, l, r in tw] for tw in towers], "status": status, "stub": stub}
@@ -286,10 +315,67 @@ def run_hostile(spec, rec: Recorder):
         loop.close()
 
 
+def run_scaling(spec, rec: Recorder):
+    """Time and memory proportional to the reply size: the decoder and the public-API path on replies of the same shape
+    at n and 4n elements (CPU thread time, minimum of repeats; a super-linear ratio must reproduce four times)."""
+    import time
+
+    from dpapi_ng import _epm
+
+    rng = common.rng_for(ID, spec)
+    blob = make_blob(rng)
+    loop = asyncio.new_event_loop()
+    asyncio.set_event_loop(loop)
+    shapes = {
+        "many-floors-in-one-tower": lambda n: repm.enc_response([[(0x7F, b"", b"")] * (3 * n) + [repm.floor_tcp(4711)]], 0),
+        "many-small-towers": lambda n: repm.enc_response([[(0x7F, b"", b"x")]] * n + [[repm.floor_tcp(4711)]], 0),
+        "big-floor-payloads": lambda n: repm.enc_response([[(0x7F, b"", bytes(10 * n))] * 4 + [repm.floor_tcp(4711)]], 0),
+    }
+    targets = {
+        "EptMapResult.unpack": lambda d: _epm.EptMapResult.unpack(d),
+        "public-api": lambda d: via_api(d, "sync", loop, blob),
+    }
+    try:
+        for sname, build in shapes.items():
+            small, big = build(350), build(1400)
+            for tname, fn in targets.items():
+                def measure(data):
+                    best = None
+                    for _ in range(spec["repeats"]):
+                        t0 = time.thread_time_ns()
+                        try:
+                            fn(data)
+                        except Exception:
+                            pass
+                        dt = time.thread_time_ns() - t0
+                        best = dt if best is None else min(best, dt)
+                    return best
+
+                ratio_len = len(big) / len(small)
+                tries = []
+                for _ in range(4):
+                    r_ = measure(big) / max(1, measure(small))
+                    tries.append(round(r_, 2))
+                    if r_ <= 2.2 * ratio_len:
+                        break
+                rec.range(f"cpu_ratio_x100[{tname}/{sname}]", int(100 * min(tries)))
+                rec.count("scaling_probes")
+                wit = {"kind": "scaling", "shape": sname, "target": tname}
+                if len(tries) == 4 and min(tries) > 2.2 * ratio_len:
+                    rec.violation("superlinear-work", f"{tname} on {sname}: reply grew {ratio_len:.1f}x but CPU time grew {tries}x in four independent measurements", wit)
+                if tname == "public-api":
+                    out, port = via_api(big, "sync", loop, blob)
+                    if (out, port) != ("connected", 4711):
+                        rec.violation("wrong-port", f"{sname}: client {out} port {port}, expected 4711", wit)
+                rec.case(("scaling", sname, tname), nontrivial=True, sample={"shape": sname, "target": tname, "len_small": len(small), "len_big": len(big), "cpu_ratio": tries})
+    finally:
+        loop.close()
+
+
 def run_shard(spec, rec: Recorder):
     if not common.calibrate(rec, "rpc", "epm", "cms"):
         return
-    {"wellformed": run_wellformed, "hostile": run_hostile}[spec["kind"]](spec, rec)
+    {"wellformed": run_wellformed, "hostile": run_hostile, "scaling": run_scaling}[spec["kind"]](spec, rec)
 
 
 def replay(body, rec: Recorder):
